@@ -75,12 +75,29 @@ Definition rx1_step_rule (t : tables) (off : Z) (prev obs : outcome Z) : bool :=
     end
   else true.
 
+(* an accepted uplink data-rate is a data-rate of the band ("invalid data-rates yield an error":
+   an index GetDataRate rejects must be rejected here too) *)
+Definition rx1_uplink_dr_rule (t : tables) (dr : Z) (obs : outcome Z) : bool :=
+  match obs with Ok _ => dr_defined t dr | _ => true end.
+
+(* the RX1DROffset values a region defines: 0..3 (US915), 0..7 (AS923, IN865: 6 and 7 are the
+   effective offsets -1 and -2), 0..5 everywhere else; a larger value is an invalid offset *)
+Definition spec_max_rx1_offset (reg : region) : Z :=
+  match reg with
+  | RUS915 => 3
+  | RAS923 _ | RIN865 => 7
+  | _ => 5
+  end.
+Definition rx1_offset_rule (reg : region) (off : Z) (obs : outcome Z) : bool :=
+  if off >? spec_max_rx1_offset reg then is_err obs else true.
+
 Definition rx1_cell_ok (c : band_cfg) (dr off : Z) (prev obs : outcome Z) : bool :=
   match region_of (c_name c) with
   | None => false
   | Some reg =>
     rx1_no_panic obs && rx1_invalid_rule dr off obs && rx1_defined_rule (c_tab c) obs
     && rx1_formula_rule reg (c_dwell c) dr off obs && rx1_step_rule (c_tab c) off prev obs
+    && rx1_uplink_dr_rule (c_tab c) dr obs && rx1_offset_rule reg off obs
   end.
 
 (* ---- RX1 channel / frequency ------------------------------------------------
@@ -132,6 +149,17 @@ Definition rx1_frequency_any_ok (reg : region) (f : Z) (o : outcome Z) : bool :=
 (* ---- ping slot -------------------------------------------------------------- *)
 Definition ping_slot_ok (reg : region) (devaddr beacon : Z) (obs : outcome Z) : bool :=
   outcome_eqb Z.eqb obs (Ok (spec_ping_slot reg devaddr beacon)).
+
+(* ANY beacon time (time.Duration is a signed 64-bit number of nanoseconds): a time before the GPS
+   epoch is not a beacon time - the hopping regions answer it with an error, never with a panic
+   (and never with the hop a truncating division would select); the fixed-frequency regions do not
+   look at their arguments *)
+Definition hopping_region (reg : region) : bool :=
+  match reg with RUS915 | RAU915 | RCN470 => true | _ => false end.
+Definition ping_slot_any_ok (reg : region) (devaddr beacon : Z) (obs : outcome Z) : bool :=
+  if 0 <=? beacon then ping_slot_ok reg devaddr beacon obs
+  else if hopping_region reg then is_err obs
+  else outcome_eqb Z.eqb obs (Ok (spec_ping_slot_at reg 0)).
 
 (* ---- RX2 default ------------------------------------------------------------ *)
 Definition rx2_ok (reg : region) (t : tables) (d : defaults) : bool :=
